@@ -542,9 +542,10 @@ def load_database(dbpath, rootdir):
 
             entry["file"] = path
 
-            # Include paths may be specified relative to root
+            # Include paths may be specified relative to the directory the
+            # command is run from
             entry["include_paths"] = [
-                os.path.realpath(os.path.join(rootdir, f))
+                os.path.realpath(os.path.join(filedir, f))
                 for f in entry["include_paths"]
             ]
 
